@@ -482,4 +482,37 @@ theorem generated_zero_grad_eq_model (s : St) :
   · cases h : s.lastSkipped <;> simp [optZero, Opacus.Generated.ZeroGrad.flat, h]
   · cases h : s.lastSkipped <;> simp [optZero, Opacus.Generated.ZeroGrad.ghost, h]
 
+/-! ## A new optimizer on parameters another optimizer has used (training in phases, a second `make_private`) -/
+
+/-- constructing a `DPOptimizer` for the parameters: what `__init__` does to the protocol state (the three initial values are parameters so
+that the theorem below can be stated for what the source writes, `Generated.ZeroGrad.init*`) -/
+def newOpt (s : St) (summedInit : Option Flagged) (queueInit : List Bool) (skippedInit : Bool) : St :=
+  { s with summed := summedInit, queue := queueInit, lastSkipped := skippedInit }
+
+/-- **fresh_optimizer_releases_own_batch**: whatever an earlier optimizer left behind (an interrupted logical batch in `summed`, queued
+skip signals, a set skip marker), the first step of a new optimizer on one fresh backward releases exactly that batch, under one noise block
+and one accountant record -/
+theorem fresh_optimizer_releases_own_batch (c : Cfg) (hc : c.kind = .std) (hg : c.gdp = false) (s : St) (toks : List Nat)
+    (hgs : s.gs = [⟨toks, false⟩]) :
+    (stepOp c (newOpt s none [] false) .step).2 = .released ∧
+    (stepOp c (newOpt s none [] false) .step).1.log = s.log ++ [.noise s.sigma s.clip, .account s.sigma 1, .inner toks] := by
+  simp [stepOp, newOpt, hc, hgs, finishStep, popQueue, accumulateInto, hg]
+
+/-- why the constructor has to clear the accumulator: a new optimizer that INHERITS an unreleased clipped sum `A` releases `A ++ toks` –
+gradients clipped under the old optimizer's bound and never accounted enter the new optimizer's first release -/
+theorem fresh_optimizer_inheriting_leaks (c : Cfg) (hc : c.kind = .std) (hg : c.gdp = false) (s : St) (A toks : List Nat)
+    (hgs : s.gs = [⟨toks, false⟩]) :
+    (stepOp c (newOpt s (some ⟨A, false⟩) [] false) .step).1.log =
+      s.log ++ [.noise s.sigma s.clip, .account s.sigma 1, .inner (A ++ toks)] := by
+  simp [stepOp, newOpt, hc, hgs, finishStep, popQueue, accumulateInto, hg]
+
+/-- the tie to the source: `DPOptimizer.__init__` as written (re-translated on every run) starts from an empty skip queue, a cleared skip marker
+and `summed_grad = None` on every parameter, whatever was there before – the state `fresh_optimizer_releases_own_batch` is about -/
+theorem generated_init_eq_model (s : St) :
+    newOpt s (Opacus.Generated.ZeroGrad.initSummed s.summed) Opacus.Generated.ZeroGrad.initQueue Opacus.Generated.ZeroGrad.initLastSkipped
+      = newOpt s none [] false := by
+  simp [Opacus.Generated.ZeroGrad.initSummed, Opacus.Generated.ZeroGrad.initQueue, Opacus.Generated.ZeroGrad.initLastSkipped]
+
+example : (stepOp ⟨.std, true, false⟩ (newOpt { (init 1 2) with gs := [⟨[7, 8], false⟩], summed := some ⟨[1, 2, 3], false⟩, lastSkipped := true, queue := [true] } none [] false) .step).2 = .released := by decide
+
 end Opacus.C11
